@@ -161,3 +161,24 @@ PROPS["C10"] = {
         "for the plain-reader path under Reject the bytes copied before the limit was detected may stay stored (prefix, <= limit)",
     ],
 }
+
+PROPS["C07"] = {
+    "level": "exploration",
+    "runs": [run("TestC07", (8000, 6), (300000, 16))],
+    "rule": "cases = configurations of 1..10 lines assembled from the complete vocabulary scraped from the working tree (every directive with "
+            "plausible and hostile arguments; SecRule with every variable (key, regex key, count, negation), every operator (valid, empty "
+            "and malformed arguments, macros naming any variable) and every action in every documented spelling (setvar flag/delete/"
+            "arithmetic/macro keys, every ctl option with ids, ranges, VAR:key and VAR:/re/, ...); chains; SecDataset) with byte-level "
+            "mutation of ~8% of the lines, x generated traffic (urlencoded / JSON / XML / multipart / raw bodies, valid and broken) driven "
+            "through canonical and anomalous API scripts or ParseRequestReader; oracle = recover() around NewWAF and every call, NewWAF "
+            "returns exactly one of (waf, error), watchdog for hangs; non-trivial = the configuration was accepted and traffic was driven "
+            "through it; distinct = distinct case encodings",
+    "essential": {"all": ["accepted", "rejected-with-error", "rules-fired", "parse-request-reader", "act:setvar", "act:ctl", "op:rx", "op:pm",
+                          "op:validateNid", "op:restpath", "dir:secruleremovebymsg", "dir:secruleupdatetargetbyid", "dir:secauditlogformat"]},
+    "vocab_complete": True,
+    "assumptions": COMMON_ASSUME + [
+        "@rbl, @geoLookup and SecRemoteRules (network I/O by design) are compiled but not driven with traffic; @inspectFile / exec name a non-existent program",
+        "the process-wide pattern cache is reset before every case so that a failure is a function of the case alone (C13 covers cross-WAF effects)",
+        "a case is reported as a hang only if it has not returned after 140 s",
+    ],
+}
